@@ -1,49 +1,70 @@
 //! Reference model ("the specification's trie") for a *shape*: a concrete trie topology whose
 //! leaves carry symbolic key suffixes and symbolic value hashes.
 //!
-//! `T` is the specification's recursion written as data: `E` = empty sub-trie (TERMINATOR),
-//! `L(i)` = sub-trie with the single pair `i` (leaf hash), `N(l, r)` = internal node hashing its
-//! two sub-tries (split on the bit at the node's depth). A shape is *valid* when it is maximally
-//! compressed: no `N` has fewer than two leaves below it. `check_valid` asserts that concretely.
+//! The topology is a *type* (`E` = empty sub-trie, `L<I>` = the single pair `I`, `N<A, B>` =
+//! internal node over sub-tries `A` (bit 0) and `B` (bit 1)), so every recursion below is
+//! monomorphised into straight-line code: CBMC sees a concrete structure and only hashes and key
+//! suffixes are symbolic. (A pointer-linked `static` tree is *not* constant-folded by CBMC and
+//! made the recursion explode.)
+//!
+//! A *mask* selects a subset of the universe's pairs; the specification's trie of the subset is
+//! the maximally compressed one: a sub-trie with no selected pair is TERMINATOR, with exactly one
+//! it is that pair's leaf hash, otherwise an internal node hashing its two sub-tries.
 //!
 //! Written independently of `nomt_core::update`: it uses only `NodeHasher::{hash_leaf,
 //! hash_internal}` and bit arithmetic.
 
+use core::marker::PhantomData;
 use nomt_core::hasher::NodeHasher;
 use nomt_core::proof::{PathProof, PathProofTerminal};
 use nomt_core::trie::{InternalData, KeyPath, LeafData, Node, ValueHash, TERMINATOR};
 use nomt_core::trie_pos::TriePosition;
 
-pub enum T {
-    E,
-    L(usize),
-    N(&'static T, &'static T),
-}
-use T::*;
-
 pub const MAXK: usize = 4;
+pub const MAXD: usize = 8;
+pub type Mask = [bool; MAXK];
+pub const ALL: Mask = [true; MAXK];
 
-/// The symbolic content of a shape: keys (prefix fixed by the topology, suffix symbolic inside
-/// the window, zero beyond) and value hashes.
+pub struct E;
+pub struct L<const I: usize>;
+pub struct N<A, B>(PhantomData<(A, B)>);
+
+/// The symbolic content of a universe shape.
 pub struct Pairs {
     pub n: usize,
     pub keys: [KeyPath; MAXK],
     pub vals: [ValueHash; MAXK],
 }
 
-pub fn count(t: &T) -> usize {
-    match t {
-        E => 0,
-        L(_) => 1,
-        N(l, r) => count(l) + count(r),
-    }
+/// A terminal of the compressed trie of a masked set, with its honest proof material.
+pub struct Term {
+    pub depth: usize,
+    pub path: [bool; MAXD],
+    pub siblings: [Node; MAXD],
+    /// Some(i): leaf terminal holding pair i; None: terminator
+    pub leaf: Option<usize>,
+    /// universe pairs whose keys lie below this terminal (selected or not)
+    pub under: [usize; MAXK],
+    pub n_under: usize,
+    /// index of the terminal, left to right
+    pub index: usize,
 }
 
-pub fn check_valid(t: &T) {
-    if let N(l, r) = t {
-        assert!(count(t) >= 2);
-        check_valid(l);
-        check_valid(r);
+pub struct Walk {
+    pub depth: usize,
+    pub path: [bool; MAXD],
+    pub siblings: [Node; MAXD],
+    pub next_index: usize,
+}
+
+impl Walk {
+    pub fn new() -> Self {
+        Walk {
+            depth: 0,
+            path: [false; MAXD],
+            siblings: [[0u8; 32]; MAXD],
+            next_index: 0,
+        }
     }
 }
 
@@ -76,90 +97,201 @@ pub fn window_key(window: usize) -> KeyPath {
     k
 }
 
-fn fill(t: &T, depth: usize, prefix: &KeyPath, window: usize, p: &mut Pairs) {
-    match t {
-        E => {}
-        L(i) => {
-            // key = concrete prefix (depth bits) ++ symbolic suffix inside the window
-            let mut k = window_key(window);
-            let mut d = 0;
-            while d < depth {
-                set_bit(&mut k, d, get_bit(prefix, d));
-                d += 1;
+pub trait Tree {
+    const LEAVES: usize;
+    /// number of selected pairs below
+    fn count(mask: &Mask) -> usize;
+    /// a selected pair below (usize::MAX if none)
+    fn single(mask: &Mask) -> usize;
+    /// draw the symbolic pairs: key = concrete prefix (the position in the universe) ++ symbolic
+    /// suffix inside the window ++ zeros
+    fn fill(depth: usize, prefix: &KeyPath, window: usize, p: &mut Pairs);
+    /// the specification's root of the selected subset of this sub-trie
+    fn root<H: NodeHasher>(keys: &[KeyPath; MAXK], vals: &[ValueHash; MAXK], mask: &Mask) -> Node;
+    /// all universe pairs below
+    fn leaves(out: &mut [usize; MAXK], n: &mut usize);
+    /// visit the terminals of the compressed trie of the selected subset, left to right
+    fn walk<H: NodeHasher, F: FnMut(&Term)>(
+        keys: &[KeyPath; MAXK],
+        vals: &[ValueHash; MAXK],
+        mask: &Mask,
+        w: &mut Walk,
+        f: &mut F,
+    );
+}
+
+fn emit<T: Tree, F: FnMut(&Term)>(w: &mut Walk, leaf: Option<usize>, f: &mut F) {
+    let mut under = [0usize; MAXK];
+    let mut n_under = 0;
+    T::leaves(&mut under, &mut n_under);
+    let t = Term {
+        depth: w.depth,
+        path: w.path,
+        siblings: w.siblings,
+        leaf,
+        under,
+        n_under,
+        index: w.next_index,
+    };
+    w.next_index += 1;
+    f(&t);
+}
+
+impl Tree for E {
+    const LEAVES: usize = 0;
+    fn count(_mask: &Mask) -> usize {
+        0
+    }
+    fn single(_mask: &Mask) -> usize {
+        usize::MAX
+    }
+    fn fill(_depth: usize, _prefix: &KeyPath, _window: usize, _p: &mut Pairs) {}
+    fn root<H: NodeHasher>(_k: &[KeyPath; MAXK], _v: &[ValueHash; MAXK], _m: &Mask) -> Node {
+        TERMINATOR
+    }
+    fn leaves(_out: &mut [usize; MAXK], _n: &mut usize) {}
+    fn walk<H: NodeHasher, F: FnMut(&Term)>(
+        _k: &[KeyPath; MAXK],
+        _v: &[ValueHash; MAXK],
+        _m: &Mask,
+        w: &mut Walk,
+        f: &mut F,
+    ) {
+        emit::<Self, F>(w, None, f)
+    }
+}
+
+impl<const I: usize> Tree for L<I> {
+    const LEAVES: usize = 1;
+    fn count(mask: &Mask) -> usize {
+        mask[I] as usize
+    }
+    fn single(mask: &Mask) -> usize {
+        if mask[I] {
+            I
+        } else {
+            usize::MAX
+        }
+    }
+    fn fill(depth: usize, prefix: &KeyPath, window: usize, p: &mut Pairs) {
+        let mut k = window_key(window);
+        let mut d = 0;
+        while d < depth {
+            set_bit(&mut k, d, get_bit(prefix, d));
+            d += 1;
+        }
+        p.keys[I] = k;
+        p.vals[I] = kani::any();
+        if I + 1 > p.n {
+            p.n = I + 1;
+        }
+    }
+    fn root<H: NodeHasher>(keys: &[KeyPath; MAXK], vals: &[ValueHash; MAXK], mask: &Mask) -> Node {
+        if mask[I] {
+            H::hash_leaf(&LeafData {
+                key_path: keys[I],
+                value_hash: vals[I],
+            })
+        } else {
+            TERMINATOR
+        }
+    }
+    fn leaves(out: &mut [usize; MAXK], n: &mut usize) {
+        out[*n] = I;
+        *n += 1;
+    }
+    fn walk<H: NodeHasher, F: FnMut(&Term)>(
+        _k: &[KeyPath; MAXK],
+        _v: &[ValueHash; MAXK],
+        mask: &Mask,
+        w: &mut Walk,
+        f: &mut F,
+    ) {
+        emit::<Self, F>(w, if mask[I] { Some(I) } else { None }, f)
+    }
+}
+
+impl<A: Tree, B: Tree> Tree for N<A, B> {
+    const LEAVES: usize = A::LEAVES + B::LEAVES;
+    fn count(mask: &Mask) -> usize {
+        A::count(mask) + B::count(mask)
+    }
+    fn single(mask: &Mask) -> usize {
+        let a = A::single(mask);
+        if a != usize::MAX {
+            a
+        } else {
+            B::single(mask)
+        }
+    }
+    fn fill(depth: usize, prefix: &KeyPath, window: usize, p: &mut Pairs) {
+        let mut pl = *prefix;
+        set_bit(&mut pl, depth, false);
+        A::fill(depth + 1, &pl, window, p);
+        let mut pr = *prefix;
+        set_bit(&mut pr, depth, true);
+        B::fill(depth + 1, &pr, window, p);
+    }
+    fn root<H: NodeHasher>(keys: &[KeyPath; MAXK], vals: &[ValueHash; MAXK], mask: &Mask) -> Node {
+        match Self::count(mask) {
+            0 => TERMINATOR,
+            1 => {
+                let i = Self::single(mask);
+                H::hash_leaf(&LeafData {
+                    key_path: keys[i],
+                    value_hash: vals[i],
+                })
             }
-            p.keys[*i] = k;
-            p.vals[*i] = kani::any();
-            if *i + 1 > p.n {
-                p.n = *i + 1;
+            _ => {
+                let left = A::root::<H>(keys, vals, mask);
+                let right = B::root::<H>(keys, vals, mask);
+                H::hash_internal(&InternalData { left, right })
             }
         }
-        N(l, r) => {
-            let mut pl = *prefix;
-            set_bit(&mut pl, depth, false);
-            fill(l, depth + 1, &pl, window, p);
-            let mut pr = *prefix;
-            set_bit(&mut pr, depth, true);
-            fill(r, depth + 1, &pr, window, p);
+    }
+    fn leaves(out: &mut [usize; MAXK], n: &mut usize) {
+        A::leaves(out, n);
+        B::leaves(out, n);
+    }
+    fn walk<H: NodeHasher, F: FnMut(&Term)>(
+        keys: &[KeyPath; MAXK],
+        vals: &[ValueHash; MAXK],
+        mask: &Mask,
+        w: &mut Walk,
+        f: &mut F,
+    ) {
+        match Self::count(mask) {
+            0 => emit::<Self, F>(w, None, f),
+            1 => emit::<Self, F>(w, Some(Self::single(mask)), f),
+            _ => {
+                let left = A::root::<H>(keys, vals, mask);
+                let right = B::root::<H>(keys, vals, mask);
+                let d = w.depth;
+                w.path[d] = false;
+                w.siblings[d] = right;
+                w.depth = d + 1;
+                A::walk::<H, F>(keys, vals, mask, w, f);
+                w.path[d] = true;
+                w.siblings[d] = left;
+                w.depth = d + 1;
+                B::walk::<H, F>(keys, vals, mask, w, f);
+                w.depth = d;
+            }
         }
     }
 }
 
-/// Draw the symbolic pairs of a shape. Leaves must be numbered left to right so that the keys
-/// are sorted by index.
-pub fn pairs(t: &'static T, window: usize) -> Pairs {
-    check_valid(t);
+/// Draw the symbolic pairs of a universe. Leaves must be numbered left to right so that keys are
+/// sorted by index.
+pub fn pairs<U: Tree>(window: usize) -> Pairs {
     let mut p = Pairs {
         n: 0,
         keys: [[0; 32]; MAXK],
         vals: [[0; 32]; MAXK],
     };
-    fill(t, 0, &[0u8; 32], window, &mut p);
-    assert!(p.n == count(t));
+    U::fill(0, &[0u8; 32], window, &mut p);
+    assert!(p.n == U::LEAVES);
     p
-}
-
-/// The specification's root of the sub-trie `t`.
-pub fn spec_root<H: NodeHasher>(t: &T, p: &Pairs) -> Node {
-    match t {
-        E => TERMINATOR,
-        L(i) => H::hash_leaf(&LeafData {
-            key_path: p.keys[*i],
-            value_hash: p.vals[*i],
-        }),
-        N(l, r) => {
-            let left = spec_root::<H>(l, p);
-            let right = spec_root::<H>(r, p);
-            H::hash_internal(&InternalData { left, right })
-        }
-    }
-}
-
-/// The terminal reached by following `path` (concrete bits) from `t`, with the siblings
-/// encountered (ascending by depth). Returns (terminal sub-trie, depth).
-pub fn honest_path<H: NodeHasher>(
-    t: &'static T,
-    p: &Pairs,
-    path: &[bool],
-    siblings: &mut Vec<Node>,
-) -> (&'static T, usize) {
-    let mut cur = t;
-    let mut d = 0;
-    loop {
-        match cur {
-            N(l, r) => {
-                assert!(d < path.len(), "concrete path too short for this shape");
-                if path[d] {
-                    siblings.push(spec_root::<H>(l, p));
-                    cur = r;
-                } else {
-                    siblings.push(spec_root::<H>(r, p));
-                    cur = l;
-                }
-                d += 1;
-            }
-            _ => return (cur, d),
-        }
-    }
 }
 
 pub fn bits_to_key(path: &[bool]) -> KeyPath {
@@ -180,27 +312,39 @@ pub fn position(path: &[bool], depth: usize) -> TriePosition {
     }
 }
 
-/// The honest `PathProof` for the terminal reached along the concrete `path`.
-pub fn honest_proof<H: NodeHasher>(t: &'static T, p: &Pairs, path: &[bool]) -> (PathProof, usize) {
-    let mut siblings = Vec::new();
-    let (term, depth) = honest_path::<H>(t, p, path, &mut siblings);
-    let terminal = match term {
-        L(i) => PathProofTerminal::Leaf(LeafData {
-            key_path: p.keys[*i],
-            value_hash: p.vals[*i],
+/// The honest `PathProof` of a terminal.
+pub fn proof_of(t: &Term, keys: &[KeyPath; MAXK], vals: &[ValueHash; MAXK]) -> PathProof {
+    let mut siblings = Vec::with_capacity(t.depth);
+    let mut d = 0;
+    while d < t.depth {
+        siblings.push(t.siblings[d]);
+        d += 1;
+    }
+    let terminal = match t.leaf {
+        Some(i) => PathProofTerminal::Leaf(LeafData {
+            key_path: keys[i],
+            value_hash: vals[i],
         }),
-        E => PathProofTerminal::Terminator(position(path, depth)),
-        N(..) => unreachable!(),
+        None => PathProofTerminal::Terminator(position(&t.path, t.depth)),
     };
-    (PathProof { terminal, siblings }, depth)
+    PathProof { terminal, siblings }
 }
 
-/// Membership in the model: Some(value hash) iff `k` is one of the pairs.
-pub fn model_get(p: &Pairs, k: &KeyPath) -> Option<ValueHash> {
+/// A key below the terminal (a universe key if there is one, else the bare path).
+pub fn lookup_key(t: &Term, keys: &[KeyPath; MAXK]) -> KeyPath {
+    if t.n_under > 0 {
+        keys[t.under[0]]
+    } else {
+        bits_to_key(&t.path[..t.depth])
+    }
+}
+
+/// Membership in the model restricted by `mask`: Some(value hash) iff `k` is a selected pair.
+pub fn model_get(p: &Pairs, mask: &Mask, k: &KeyPath) -> Option<ValueHash> {
     let mut i = 0;
     let mut r = None;
     while i < p.n {
-        if keys_eq(&p.keys[i], k) {
+        if mask[i] && p.keys[i] == *k {
             r = Some(p.vals[i]);
         }
         i += 1;
@@ -208,33 +352,39 @@ pub fn model_get(p: &Pairs, k: &KeyPath) -> Option<ValueHash> {
     r
 }
 
-/// Window keys only differ in bytes 0..2 — compare those (all other bytes are zero by
-/// construction; callers that take arbitrary keys must use `==`).
-#[inline(always)]
-pub fn keys_eq(a: &KeyPath, b: &KeyPath) -> bool {
-    a == b
-}
-
 // ---------------------------------------------------------------------------------------------
 // The shape menu. Leaves numbered left to right.
 
+/// empty universe
+pub type S0 = E;
 /// one pair
-pub static S1: T = L(0);
+pub type S1 = L<0>;
 /// two pairs diverging at bit 0
-pub static S2_D0: T = N(&L(0), &L(1));
+pub type S2D0 = N<L<0>, L<1>>;
 /// two pairs sharing bit 0 = 0, diverging at bit 1
-pub static S2_D1L: T = N(&N(&L(0), &L(1)), &E);
+pub type S2D1L = N<N<L<0>, L<1>>, E>;
 /// two pairs sharing bit 0 = 1, diverging at bit 1
-pub static S2_D1R: T = N(&E, &N(&L(0), &L(1)));
+pub type S2D1R = N<E, N<L<0>, L<1>>>;
 /// two pairs sharing bits 01, diverging at bit 2
-pub static S2_D2: T = N(&N(&E, &N(&L(0), &L(1))), &E);
+pub type S2D2 = N<N<E, N<L<0>, L<1>>>, E>;
 /// three pairs: {0} | {1,2 diverging at bit 1}
-pub static S3_A: T = N(&L(0), &N(&L(1), &L(2)));
+pub type S3A = N<L<0>, N<L<1>, L<2>>>;
 /// three pairs: {0,1 diverging at bit 1} | {2}
-pub static S3_B: T = N(&N(&L(0), &L(1)), &L(2));
+pub type S3B = N<N<L<0>, L<1>>, L<2>>;
 /// three pairs: {0, 1 diverging at bit 2 under 00} | 01 empty | {2}
-pub static S3_C: T = N(&N(&N(&L(0), &L(1)), &E), &L(2));
+pub type S3C = N<N<N<L<0>, L<1>>, E>, L<2>>;
 /// four pairs, full two levels
-pub static S4_A: T = N(&N(&L(0), &L(1)), &N(&L(2), &L(3)));
+pub type S4A = N<N<L<0>, L<1>>, N<L<2>, L<3>>>;
 /// four pairs, deep left
-pub static S4_B: T = N(&N(&N(&L(0), &L(1)), &L(2)), &L(3));
+pub type S4B = N<N<N<L<0>, L<1>>, L<2>>, L<3>>;
+
+/// pad a short mask literal
+pub fn mk(m: &[bool]) -> Mask {
+    let mut out = [false; MAXK];
+    let mut i = 0;
+    while i < m.len() {
+        out[i] = m[i];
+        i += 1;
+    }
+    out
+}
